@@ -31,6 +31,7 @@ func errCodeHybrid(err error) int {
 }
 
 var seenAutoIDs = map[uint32]bool{}
+var maxAutoID uint32
 
 type hybridOpts struct {
 	nops       int
@@ -105,6 +106,7 @@ func runHybridHistory(r *rand.Rand, o hybridOpts, t *Trace) *Case {
 	}
 	var docs []docRec
 	gone := []uint32{}
+	topID := ^uint32(0)
 	nextID := uint32(1000001) // explicit ids stay clear of the process-wide counter behind automatically generated ids
 	train := func() {
 		vs := make([][]float32, ntrain)
@@ -163,10 +165,11 @@ func runHybridHistory(r *rand.Rand, o hybridOpts, t *Trace) *Case {
 				keys = append(keys, k)
 			}
 			sort.Strings(keys)
-			auto := r.Intn(4) == 0 && !o.allowReuse
+			auto := r.Intn(4) == 0
 			var id uint32
 			var e error
 			dup := false
+			autoBackwards := false
 			reused := false
 			if auto {
 				id, e = h.Add(vec, text, md)
@@ -175,12 +178,27 @@ func runHybridHistory(r *rand.Rand, o hybridOpts, t *Trace) *Case {
 						dup = true
 					}
 					seenAutoIDs[id] = true
+					if id <= maxAutoID {
+						// the generator of ids went backwards: every id below its high-water mark has been
+						// handed out before (to some caller), so this is reported as a departure from the
+						// model of the generator even when this harness did not itself see the earlier use
+						autoBackwards = true
+					} else {
+						maxAutoID = id
+					}
 				}
 				t.Stat("hyb.add_auto_id")
 			} else {
 				id = nextID
 				nextID++
-				if o.allowReuse && len(gone) > 0 && r.Intn(2) == 0 {
+				if r.Intn(10) == 0 {
+					// the caller's ids may sit anywhere in the id range, the very top included; they are the
+					// caller's business and must not disturb the ids Add generates afterwards
+					id = topID
+					topID--
+					nextID--
+					t.Stat("hyb.add_explicit_id_at_top_of_range")
+				} else if o.allowReuse && len(gone) > 0 && r.Intn(2) == 0 {
 					gi := r.Intn(len(gone))
 					id = gone[gi]
 					gone = append(gone[:gi], gone[gi+1:]...)
@@ -203,7 +221,13 @@ func runHybridHistory(r *rand.Rand, o hybridOpts, t *Trace) *Case {
 					c.Str(k)
 					encValue(c, md[k])
 				}
-				c.N(code).B(dup)
+				dupCode := 0
+				if dup {
+					dupCode = 1
+				} else if autoBackwards {
+					dupCode = 2
+				}
+				c.N(code).N(dupCode)
 			})
 			if code == 0 {
 				docs = append(docs, docRec{id, raw})
